@@ -78,6 +78,7 @@ static RunResult run_c16(const RunSpec &spec) {
     long l1 = g_lalloc.live_blocks(), s1 = sqlite_live_blocks();
     if (l1 != live0) { std::string sites = g_lalloc.describe_live(3); throw Violation(prop + ".leak", sites, strprintf("%ld block(s) allocated by the library are still live after the %s workload released everything; allocation site(s): %s", l1 - live0, what.c_str(), sites.c_str()), -1); }
     if (s1 != sq0) throw Violation(prop + ".leak", "sqlite", strprintf("%ld storage-engine allocation(s) still live after the %s workload", s1 - sq0, what.c_str()), -1);
+    if (g_disk.live_files() != 0) throw Violation(prop + ".leak", "tempfile", strprintf("%zu temporary storage file(s) left behind by the %s workload", g_disk.live_files(), what.c_str()), -1);
     return res;
 }
 
